@@ -218,3 +218,106 @@ def ml_enum_text(e):
     return ('classdef ' + e.name + ' < uint32\n    enumeration\n        '
             + '\n        '.join([x.name + '(' + int_str(i) + ')' for i, x in enumerate(e.enumerators)])
             + '\n    end\nend\n')
+
+
+# ---------------------------------------------------------------- C06: returns (single, pair, void, object, enum)
+@spec()
+def ml_shared_return(tn, shared_obj, i, nl):
+    """a value type of the ignore list (Vector, Matrix, Point2, Point3) returned through a shared pointer"""
+    return ('  {\n  std::shared_ptr<' + ml_type_name(tn, '::', False, False, False) + '> shared(' + shared_obj + ');\n'
+            + '  out[' + int_str(i) + '] = wrap_shared_ptr(shared,"' + ml_type_name(tn, '::', False, False, False) + '");\n  }'
+            + ('\n' if nl else ''))
+
+
+@spec()
+def ml_is_pointerish(t):
+    return t.is_shared_ptr != '' or t.is_ptr != '' or can_be_pointer(t)
+
+
+@spec()
+def ml_pair_member(t, i):
+    """out[i] of a pair result: first for i = 0, second otherwise; objects are wrapped as shared pointers under their MATLAB class name"""
+    return ((ml_shared_return(t.typename, ('pairResult.' + ('first' if i == 0 else 'second')) if (t.is_shared_ptr != '' or t.is_ptr != '')
+                              else ('std::make_shared<' + ml_type_name(t.typename, '::', True, False, False) + '>(pairResult.'
+                                    + ('first' if i == 0 else 'second') + ')'), i, i == 0)
+             if t.typename.name in IGNORE_NS else
+             '  out[' + int_str(i) + '] = wrap_shared_ptr('
+             + (('pairResult.' + ('first' if i == 0 else 'second')) if (t.is_shared_ptr != '' or t.is_ptr != '')
+                else ('std::make_shared<' + ml_type_name(t.typename, '::', True, False, False) + '>(pairResult.'
+                      + ('first' if i == 0 else 'second') + ')'))
+             + ',"' + ml_type_name(t.typename, '.', True, False, False) + '", false);' + ('\n' if i == 0 else ''))
+            if ml_is_pointerish(t) else
+            '  out[' + int_str(i) + '] = wrap< ' + ml_type_name(t.typename, '.', True, False, False) + ' >(pairResult.'
+            + ('first' if i == 0 else 'second') + ');' + ('\n' if i == 0 else ''))
+
+
+
+@spec()
+def ml_enum_class(t, c):
+    """MATLAB package path of the enumeration class that type t names (class-scoped: package of the class plus the class)"""
+    return ('.'.join(ns_chain(c.parent) + [c.name]) if ml_is_class_enum(t, c)
+            else '.'.join(ns_chain(c.parent.parent) + ([c.parent.name] if c.parent.name != '' else [])))
+
+
+@spec()
+def ml_is_optional(t):
+    return isinstance(t, TemplatedType) and tn_cpp(t.typename)[:13] == 'std::optional'
+
+
+@spec()
+def ml_shared_obj(obj, t):
+    """the arguments of wrap_shared_ptr for a single object result: the pointer and the MATLAB class name"""
+    return ((obj + ',"' + ml_type_name(t.typename, '.', True, False, False) + '"') if (t.is_shared_ptr != '' or t.is_ptr != '')
+            else ('std::make_shared<' + ml_type_name(t.typename, '::', True, False, False) + '>(' + (('*' + obj) if ml_is_optional(t) else obj) + '),"'
+                  + (('.'.join(t.template_params[0].typename.namespaces) + '.' + t.template_params[0].typename.name) if ml_is_optional(t)
+                     else ml_type_name(t.typename, '.', True, False, False)) + '"'))
+
+
+@spec()
+def ml_single_return(obj, t, c):
+    """out[0] of a single result: enumeration / object behind a shared pointer / plain value"""
+    if c is not None and ml_is_enum(t, c):
+        return textwrap.indent('out[0] = wrap_enum(' + obj + ',"' + ((ml_enum_class(t, c) + '.') if ml_enum_class(t, c) != '' else '')
+                               + t.typename.name + '");', prefix='  ')
+    if ml_is_pointerish(t):
+        return ((ml_shared_return(t.typename, obj, 0, False) if t.typename.name in IGNORE_NS else '')
+                + (textwrap.indent('out[0] = wrap_shared_ptr(' + ml_shared_obj(obj, t) + ', false);', prefix='  ')
+                   if t.typename.name not in IGNORE_NS else ''))
+    return '  out[0] = wrap< ' + t.typename.name + ' >(' + obj + ');'
+
+
+@spec()
+def ml_global_prefix(f):
+    """`ns1::ns2::` of a free function (mirrors the slicing of the joined full namespace list)"""
+    return (''.join(['::' + x for x in ([''] + ns_chain(f.parent.parent) + ([f.parent.name] if f.parent.name != '' else []))]) + '::')[4:]
+
+
+@spec()
+def ml_callee(m):
+    """C++ spelling of the declared entity that the routine calls"""
+    return (im_cpp(m) if isinstance(m, InstantiatedMethod)
+            else (ic_cpp(m.parent) + '::' + m.original.name) if isinstance(m, InstantiatedStaticMethod)
+            else ml_global_prefix(m) + m.name)
+
+
+@spec()
+def ml_invocation(m, c):
+    """the call: [obj->]callee(arguments in declared order, omitted defaults by their text)"""
+    return (('obj->' if isinstance(m, InstantiatedMethod) else '') + ml_callee(m) + '('
+            + ml_call_args(m.args.backup.args_list, len(m.args.backup.args_list), m.args.args_list, c) + ')')
+
+
+@spec()
+def ml_pair_second(t2):
+    return ml_pair_member(t2, 1) if isinstance(t2, Type) else ''
+
+
+@spec()
+def ml_return_body(m, c):
+    """the call and the outputs for the declared return shape: void / single / pair"""
+    if m.return_type.type1.typename.name == 'void':
+        return '  ' + ml_invocation(m, c) + ';'
+    if m.return_type.type2 == '':
+        return ml_single_return(ml_invocation(m, c), m.return_type.type1, c)
+    return ('  auto pairResult = ' + ml_invocation(m, c) + ';\n'
+            + ml_pair_member(m.return_type.type1, 0) + ml_pair_second(m.return_type.type2))
